@@ -68,8 +68,20 @@ def cb_parts(cb, op, inty, site):
     raise ValueError(cb)
 
 
+# Capture mode: in the non-spawning variants every closure operand also bumps `__cnt`, a non-Copy local (a Cell) of the
+# calling function that it captures by reference.  A macro that changes how user closures capture their environment
+# (e.g. by making an enclosing generated closure `move`) stops compiling or updates a copy; the sync variants compare
+# the local with a global tick count at the end (rt::sem::same_ticks).
+TICKS = [False]
+TICK_VARIANTS = ("join", "try_join", "join_async", "awrap|join_async", "awrap|try_join_async")
+
+
+def tk(body):
+    return f"{{ rt::sem::tick(&__cnt); {body} }}" if TICKS[0] else body
+
+
 def shaped(params, body, ret, shape, site, fnitems, opidx=0):
-    c = f"|{params}| {body}"
+    c = f"|{params}| {tk(body)}"
     if shape == "closure" or (ret is None and shape not in ("block", "block2")):
         return c
     if shape == "fnpath":
@@ -82,7 +94,7 @@ def shaped(params, body, ret, shape, site, fnitems, opidx=0):
     if shape == "paren":
         return f"({c})"
     if shape == "rettype":
-        return f"|{params}| -> {ret} {{ {body} }}"
+        return f"|{params}| -> {ret} {{ {tk(body)} }}"
     if shape == "macro":
         return f"rt::clos!({c})"
     if shape == "field":
@@ -127,7 +139,7 @@ def operand_text(item, site, st, fnitems, twin=False):
             return f"futures::stream::iter({VAL[arg]})"
         if op in ("filter", "filter_map", "fold"):
             p, b, r = cb_parts(arg, op, inty, site)
-            c = f"|{p}| futures::future::ready({b})"
+            c = f"|{p}| {tk(f'futures::future::ready({b})')}"
             return f"0i64, {c}" if op == "fold" else c
     if op == "dot":
         return DOT[arg]
@@ -311,6 +323,17 @@ SPAWNING = ("join_spawn", "try_join_spawn", "spawn", "try_spawn")
 
 def simple_expr(chain, variant, mchain):
     """expression whose value is the chain's value, evaluated by macro `variant`"""
+    if variant.startswith("awrap|") or variant.startswith("awrapn|"):
+        # the whole chain inside a wrapper of an async macro: `ready(x) |> >>> chain` is `ready(x).map(|v| v chain)`;
+        # in capture mode a second branch uses the same captured local outside the wrapper
+        w, m = variant.split("|")
+        if w == "awrapn":
+            return f"rt::sem::spin({m}! {{ futures::future::ready(x) |> >>> {mchain} }})"
+        if m.startswith("try_"):
+            return (f"rt::sem::spin({m}! {{ futures::future::ready(x) |> >>> {mchain}, futures::future::ready(Ok::<i64, i64>(0i64)) "
+                    f"|> |z| {{ rt::sem::tick(&__cnt); z }} }}).map(|p| p.0)")
+        return (f"rt::sem::spin({m}! {{ futures::future::ready(x) |> >>> {mchain}, futures::future::ready(0i64) "
+                f"|> |z| {{ rt::sem::tick(&__cnt); z }} }}).0")
     if variant == "join_async":
         return f"futures::executor::block_on(join_async! {{ futures::stream::iter(x) {mchain} }})"
     if variant == "join_async_spawn":
@@ -405,6 +428,9 @@ def chain_fns(name, chain, variant="join"):
     fin = "rt::sem::drain(r)" if rty is None else "rt::sem::canon(&r)"
     mitems, titems = [], []
     STREAM[0] = variant in ("join_async", "join_async_spawn")
+    TICKS[0] = variant in TICK_VARIANTS
+    cnt = "    let __cnt = std::cell::Cell::new(0i64);\n" if TICKS[0] else ""
+    chk = "    rt::sem::same_ticks(&__cnt);\n" if variant in ("join", "try_join") else ""
     mchain = macro_chain(chain, mitems)
     if STREAM[0]:
         tstmts = ["use futures::StreamExt;",
@@ -413,11 +439,12 @@ def chain_fns(name, chain, variant="join"):
     else:
         tstmts, tlast = twin_stmts(chain, site_types(chain), titems)
     STREAM[0] = False
+    TICKS[0] = False
     call = f"let r{ann} = {macro_expr(chain, variant, mchain)};"
     hdr = "#[allow(unused_mut, unused_variables, unused_parens, unused_braces, clippy::all)]\n"
-    m = (hdr + f"pub fn m_{name}(k: usize) -> Value {{\n" + "".join(f"    {x}\n" for x in mitems) +
-         f"    let mut x: {sty} = match k {{ {arms} }};\n    {call}\n    {fin}\n}}\n")
-    t = (hdr + f"pub fn t_{name}(k: usize) -> Value {{\n" + "".join(f"    {x}\n" for x in titems) +
+    m = (hdr + f"pub fn m_{name}(k: usize) -> Value {{\n" + "".join(f"    {x}\n" for x in mitems) + cnt +
+         f"    let mut x: {sty} = match k {{ {arms} }};\n    {call}\n    let out = {fin};\n{chk}    out\n}}\n")
+    t = (hdr + f"pub fn t_{name}(k: usize) -> Value {{\n" + "".join(f"    {x}\n" for x in titems) + cnt +
          f"    let mut x: {sty} = match k {{ {arms} }};\n" + "".join(f"    {x}\n" for x in tstmts) + f"    let r{ann} = {tlast};\n    {fin}\n}}\n")
     return m, t, len(cases)
 
